@@ -15,7 +15,8 @@ clause tokens (`:`-separated, `-` = absent; id = kind letter + number, e.g. `C3`
   up:<h>:<ty|->:<key>:<val|->:<expect|->         UPSERT CONCEPT
   en:<h|->:<ref>:<p>:<ref>:<expect|->:<bad>      ENSURE PROPOSITION
   cr:<A|E|X>:<h>:<pay>:<ref,ref,…|->:<bad>       CREATE ASSERTION / EVIDENCE / ACTIVITY
-  ud:<ref>:<val>:<expect|->:<bad>                UPDATE
+  ud:<ref>:<act,act,…>:<expect|->:<bad>          UPDATE; act = n<v> SET FIELDS name | a<v> SET ATTRIBUTES | ua UNSET ATTRIBUTES |
+                                                 f<v> SET FACET | uf UNSET FACET (a bare number is n<v>)
   ss:<ref>:<r|t>:<a|r|t|->                       ARCHIVE (r) / TOMBSTONE (t) [EXPECT STATE]
   pg:<ref>:<bad>                                 PURGE … CONFIRM "PURGE"  (bad: refused while staged — still referenced)
   rt:<ref>:<0|1|->                               RETRACT ASSERTION [EXPECT STATE active (0) / retracted (1)]
@@ -58,6 +59,19 @@ def parseSt (s : String) : Option St :=
 def parseRefs (s : String) : Option (List Ref) :=
   if s = "-" ∨ s = "" then some [] else (s.splitOn ",").mapM parseRef
 
+/-- `n3` set name, `a3` set attribute, `ua` unset attribute, `f3` set facet member, `uf` unset it; a
+bare number is `n<number>` -/
+def parseAct (s : String) : Option Act :=
+  match s.toList with
+  | ['u', 'a'] => some .unsetAttr
+  | ['u', 'f'] => some .unsetFacet
+  | 'n' :: r => (String.ofList r).toNat?.map Act.setName
+  | 'a' :: r => (String.ofList r).toNat?.map Act.setAttr
+  | 'f' :: r => (String.ofList r).toNat?.map Act.setFacet
+  | _ => s.toNat?.map Act.setName
+
+def parseActs (s : String) : Option (List Act) := (s.splitOn ",").mapM parseAct
+
 def parseClause (tok : String) : Option Clause :=
   match tok.splitOn ":" with
   | ["cc", h, ty, key, val, bad] => do
@@ -69,8 +83,8 @@ def parseClause (tok : String) : Option Clause :=
   | ["cr", k, h, pay, refs, bad] => do
       let kc ← k.toList.head?
       pure (.createRec (← kindOfChar kc) (← h.toNat?) (← pay.toNat?) (← parseRefs refs) (← parseBool bad))
-  | ["ud", t, val, ex, bad] => do
-      pure (.update (← parseRef t) (← val.toNat?) (← parseOptNat ex) (← parseBool bad))
+  | ["ud", t, acts, ex, bad] => do
+      pure (.update (← parseRef t) (← parseActs acts) (← parseOptNat ex) (← parseBool bad))
   | ["pg", t, bad] => do
       pure (.purge (← parseRef t) (← parseBool bad))
   | ["rt", t, ex] => do
@@ -117,7 +131,7 @@ def showTup : Option (Id × Nat × Id) → String
   | some (a, p, b) => s!"{showId a}>{p}>{showId b}"
 
 def showElem (i : Id) (e : Elem) : String :=
-  s!"{showId i}/{e.version}/{showSt e.state}/{e.row.ty}/{e.row.key}/{e.row.val}/{e.row.pay}/{showTup e.row.tup}/{e.seq}"
+  s!"{showId i}/{e.version}/{showSt e.state}/{e.row.ty}/{e.row.key}/{e.row.val}.{e.row.att}.{e.row.fac}/{e.row.pay}/{showTup e.row.tup}/{e.seq}"
 
 def allIds (s : Store) : List Id := Kind.all.flatMap (idsOf s)
 
